@@ -10,7 +10,7 @@ Spec functions (per PairEnv, prefix P):
   primeF(b)    :=  the natural r with  bit(r,j) <-> 0 <= j < len(self)  /\ accO(b, len(other), j)
   doubleF(b)   :=  the natural r with  bit(r,k) <-> 0 <= k < len(other) /\ accS(primeF(b), len(self), k)
 """
-from z3 import (And, BoolSort, ForAll, Function, Implies, Int, IntSort, Ints, MultiPattern, Not, Or)
+from z3 import (And, BoolSort, BoolVal, ForAll, Function, Implies, Int, IntSort, Ints, MultiPattern, Not, Or)
 
 from pyvc import bits
 from pyvc.bits import bit
@@ -202,6 +202,9 @@ def _closure_unit(name):
                     path.oblige('post/prime-tag', 'post', BoolVal(val.tag == 'OtherBits'))
                 elif name == 'double':
                     # ghost: the value of `prime` between the two loops (entry value of the second loop's shift variable)
+                    if 'b0@S' not in path.ghost:
+                        path.oblige('post/second-loop-reached', 'post', BoolVal(False))
+                        return
                     value_post(path, 'prime', path.ghost['b0@S'], E.primeF(b))
                     value_post(path, 'double', val.t, E.doubleF(b))
                     path.oblige('post/double-tag', 'post', BoolVal(val.tag == 'SelfBits'))
@@ -223,3 +226,155 @@ for _n in ('prime', 'double', 'doubleprime'):
                                'PairEnv facts are established by Relation.__new__ from the bitsets library contracts (bounded)'],
                   linkage=[("ctx._Objects.%s" % _n, None), ("ctx._Properties.%s" % _n, None),
                            ("ctx._extents.%s" % _n, None), ("ctx._intents.%s" % _n, None)]))
+
+
+# =============================================================================================
+# Vectors._pair_with and Relation.__new__: how PairEnv comes about (freshness of the bitset classes, binding of the closures)
+
+def _pair_with_unit():
+    from pyvc.engine import ClosureV, ObjV, BoolV, StrV, NONE
+    from contracts import lib
+
+    def make():
+        def harness(path):
+            already = path.fresh_bool('already_paired')
+
+            def vectors(nm):
+                cls = ObjV('BitSetClass', {'supremum': ObjV('Bitset', {}, name=nm + '.BitSet.supremum'),
+                                           'fromint': ObjV('Function', {}, name=nm + '.BitSet.fromint')}, name=nm + '.BitSet')
+                return ObjV('Vectors', {'BitSet': cls}, name=nm)
+            this, other = vectors('self'), vectors('other')
+            relation, index = ObjV('Relation', {}, name='relation'), IntV(Int('index'))
+            paired = path.branch(already)
+            if paired:
+                this.fields['prime'] = ObjV('Function', {}, name='old-prime')
+
+            def hasattr_(p, args, kw):
+                o, nm = args
+                return BoolV(nm.value in o.fields)
+            g = dict(lib.builtins(), hasattr=FuncV('hasattr', hasattr_))
+
+            def finish(path, env, outcome):
+                if paired:
+                    # a Vectors object is paired at most once
+                    path.oblige('post/second-pairing-rejected', 'post', BoolVal(outcome == ('raise', 'RuntimeError')))
+                    return
+                if outcome[0] != 'return':
+                    path.oblige('post/no-exception', 'post', BoolVal(False))
+                    return
+                ok = this.fields.get('relation') is relation and this.fields.get('relation_index') is index
+                path.oblige('post/relation-back-reference', 'post', BoolVal(ok))
+                B = this.fields['BitSet']
+                for nm in ('prime', 'double', 'doubleprime'):
+                    c = this.fields.get(nm)
+                    isclo = isinstance(c, ClosureV) and c.node.name == nm
+                    path.oblige('post/%s-is-the-closure-defined-here' % nm, 'post', BoolVal(isclo))
+                    path.oblige('post/%s-also-bound-on-the-bitset-class' % nm, 'post', BoolVal(B.fields.get(nm) is c))
+                    if not isclo:
+                        continue
+                    e = c.env
+                    # PairEnv: what the closure's free variables denote
+                    okenv = (e.get('other') is other and e.get('self') is this
+                             and e.get('Prime') is other.fields['BitSet'].fields['supremum']
+                             and e.get('Double') is B.fields['supremum']
+                             and e.get('make_prime') is other.fields['BitSet'].fields['fromint']
+                             and e.get('make_double') is B.fields['fromint'])
+                    path.oblige('post/%s-environment-is-PairEnv(self, other)' % nm, 'post', BoolVal(okenv))
+            return {'self': this, 'relation': relation, 'index': index, 'other': other}, {'globals': g}, finish
+        return bits.axioms(), harness
+    return make
+
+
+def _relation_new_unit():
+    from pyvc.engine import ObjV, NONE, TupleV, StrV, ListV, NoneV
+    from contracts import lib
+
+    def make():
+        def harness(path):
+            allocs, pairings, made = [], [], []
+            MemberBits = ObjV('class', {}, name='bitsets.bases.MemberBits')
+            VectorsCls = ObjV('class', {}, name='Vectors')
+
+            def bitset_factory(p, args, kw):
+                cls = ObjV('BitSetClass', {}, name='class#%d' % len(allocs))
+                cls.made_with = (list(args), dict(kw))
+                allocs.append(cls)
+
+                def frombools(p2, a2, k2):
+                    v = ObjV('Vectors', {'BitSet': cls}, name='vectors-of-' + cls.name)
+                    v.frombools_arg = a2[-1]
+                    f = FuncV('Vectors._pair_with', lambda p3, a3, k3, _v=v: pairings.append((_v, list(a3[-3:]))) or NONE)
+                    v.fields['_pair_with'] = f
+                    b = FuncV('Vectors.bools', lambda p3, a3, k3, _v=v: ObjV('Rows', {'of': _v}, name='bools(%s)' % _v.name))
+                    v.fields['bools'] = b
+                    return v
+                cls.fields['Tuple'] = ObjV('class', {'frombools': FuncV('Tuple.frombools', frombools)}, name=cls.name + '.Tuple')
+                return cls
+            bitsets = ObjV('module', {'bitset': FuncV('bitsets.bitset', bitset_factory),
+                                      'bases': ObjV('module', {'MemberBits': MemberBits}, name='bitsets.bases')}, name='bitsets')
+
+            def zip_(p, args, kw):
+                (a,) = args
+                return ObjV('Transposed', {'of': a}, name='zip(*rows)')
+
+            def super_(p, args, kw):
+                o = ObjV('super', {}, name='super()')
+
+                def new(p2, a2, k2):
+                    r = ObjV('Relation', {}, name='new-relation')
+                    r.cls_arg, r.items = a2[0], a2[1]
+                    made.append(r)
+                    return r
+                o.fields['__new__'] = FuncV('tuple.__new__', new)
+                return o
+            cls = ObjV('class', {}, name='Relation')
+            names = {n: ObjV('Arg', {}, name=n) for n in ('xname', 'yname', 'xmembers', 'ymembers', 'xbools')}
+            env = dict(names, cls=cls, _ids=NONE)
+            g = dict(lib.builtins(), bitsets=bitsets, zip=FuncV('zip', zip_), super=FuncV('super', super_), Vectors=VectorsCls)
+            # `*x.bools()` star-unpacking of an opaque row list: modelled by zip receiving the rows object
+            loops = {'globals': g, 'module_constants': True, 'star_opaque': True}
+
+            def finish(path, env_, outcome):
+                if outcome[0] != 'return':
+                    path.oblige('post/no-exception', 'post', BoolVal(False))
+                    return
+                r = outcome[1]
+                ok = len(made) == 1 and r is made[0] and r.cls_arg is cls
+                path.oblige('post/new-relation', 'post', BoolVal(ok))
+                # freshness: two bitset classes created by THIS call (a per-relation class carries the closures as class attributes)
+                okc = len(allocs) == 2
+                path.oblige('fresh/two-bitset-classes-created-by-this-call', 'fresh', BoolVal(okc))
+                if not (ok and okc):
+                    return
+                X, Y = allocs
+                want = lambda c, nm, mem: (len(c.made_with[0]) == 3 and c.made_with[0][0] is names[nm] and c.made_with[0][1] is names[mem]
+                                           and c.made_with[0][2] is MemberBits and set(c.made_with[1]) == {'tuple'}
+                                           and c.made_with[1]['tuple'] is VectorsCls)
+                path.oblige('post/classes-from-names-and-members', 'post', BoolVal(want(X, 'xname', 'xmembers') and want(Y, 'yname', 'ymembers')))
+                okt = isinstance(r.items, TupleV) and len(r.items.items) == 2
+                path.oblige('post/pair', 'post', BoolVal(okt))
+                if not okt:
+                    return
+                x, y = r.items.items
+                path.oblige('post/x-rows-from-xbools', 'post', BoolVal(x.fields['BitSet'] is X and x.frombools_arg is names['xbools']))
+                tr = getattr(y, 'frombools_arg', None)
+                path.oblige('post/y-rows-are-the-transposed-x-rows', 'post',
+                            BoolVal(y.fields['BitSet'] is Y and getattr(tr, 'cls', None) == 'Transposed'
+                                    and getattr(tr.fields['of'], 'cls', None) == 'Rows' and tr.fields['of'].fields['of'] is x))
+                okp = (len(pairings) == 2 and pairings[0][0] is x and pairings[0][1][0] is r and str(pairings[0][1][1].t) == '0' and pairings[0][1][2] is y
+                       and pairings[1][0] is y and pairings[1][1][0] is r and str(pairings[1][1][1].t) == '1' and pairings[1][1][2] is x)
+                path.oblige('post/both-directions-paired', 'post', BoolVal(okp))
+            return env, loops, finish
+        return bits.axioms(), harness
+    return make
+
+
+register(Unit('matrices._pair_with', 'concepts/matrices.py', 'Vectors._pair_with', _pair_with_unit(),
+              assumptions=['closures capture their defining environment by reference; none of the captured names is re-assigned after the definitions'],
+              linkage=[('concepts.matrices.Vectors._pair_with', None)]))
+register(Unit('matrices.Relation.__new__', 'concepts/matrices.py', 'Relation.__new__', _relation_new_unit(),
+              assumptions=['requires _ids is None (construction; the unpickle branch is covered on the bounded side)',
+                           'bitsets.bitset creates a NEW class on every call; Tuple.frombools builds one bitset per row (truncating to the domain); bools() the rows; '
+                           'zip(*rows) transposes rectangular rows -- assumed bitsets/builtin contracts, together they give PairEnv for both Vectors objects',
+                           'contract of Vectors._pair_with (unit matrices._pair_with)'],
+              linkage=[('concepts.matrices.Relation.__new__', None)]))
